@@ -327,4 +327,236 @@ theorem gen_migrateUser (v1 : Val) :
     V2.T_GenericFields.ofVal, hcd, c1, c2, c3, c4, c5, c6, c7, c8, c9, tl, t2, t3, t4, t5, t6]
   rfl
 
+/-! ### the account: everything but the order of the signing-key set -/
+
+section AccountMigration
+open Jwt.GoRt Jwt.Gen.Fn Jwt.FnTie
+set_option linter.unusedSimpArgs false
+set_option linter.unusedVariables false
+
+/-- the association list the Go loop `for _, v := range keys { sk.Add(v) }` builds (new entry in front) -/
+def addKeys (l : List (Str × Option V2.I_Scope)) (ks : List Str) : List (Str × Option V2.I_Scope) :=
+  ks.foldl (fun l k => (k, none) :: l.filter (fun p => p.1 ≠ k)) l
+
+theorem signingKeys_add1 (l : List (Str × Option V2.I_Scope)) (k : Str) :
+    V2.SigningKeys_Add (some l) [k] = some (some ((k, none) :: l.filter (fun p => p.1 ≠ k))) := by
+  simp [V2.SigningKeys_Add, forRange, forRangeFrom, V2.SigningKeys_Add.loop1, mapSet]
+
+theorem migAcct_loop (ks : List Str) : ∀ (i : Int) (a : V2.T_AccountClaims) (l : List (Str × Option V2.I_Scope)),
+    a.f_Account.f_SigningKeys = some l →
+    forRangeFrom V2.v1AccountClaims_migrateV1.loop1 i ks a =
+      some (.done { a with f_Account := { a.f_Account with f_SigningKeys := some (addKeys l ks) } }) := by
+  induction ks with
+  | nil =>
+    intro i a l h
+    simp only [forRangeFrom, addKeys, List.foldl_nil, ← h]
+  | cons k ks ih =>
+    intro i a l h
+    simp only [forRangeFrom, V2.v1AccountClaims_migrateV1.loop1, h, signingKeys_add1, Option.pure_def, Option.bind_eq_bind,
+      Option.bind_some]
+    rw [ih (i + 1) _ ((k, none) :: l.filter (fun p => p.1 ≠ k)) rfl]
+    simp [addKeys]
+
+/-! key-level views of the two folds -/
+def addK (K : List Str) (k : Str) : List Str := k :: K.filter (fun x => x ≠ k)
+def storeK (K : List Str) (k : Str) : List Str := if k ∈ K then K else K ++ [k]
+
+theorem addKeys_keys (ks : List Str) : ∀ (K : List Str),
+    addKeys (K.map fun k => (k, (none : Option V2.I_Scope))) ks = (ks.foldl addK K).map fun k => (k, none) := by
+  induction ks with
+  | nil => intro K; rfl
+  | cons k ks ih =>
+    intro K
+    have : ((k, (none : Option V2.I_Scope)) :: (K.map fun k => (k, (none : Option V2.I_Scope))).filter (fun p => p.1 ≠ k)) =
+        (addK K k).map fun k => (k, none) := by
+      simp [addK, List.filter_map, Function.comp_def]
+    simp only [addKeys, List.foldl_cons] at ih ⊢
+    rw [this]
+    exact ih (addK K k)
+
+theorem mapStore_keys (k : Str) (K : List Str) :
+    mapStore (K.map fun k => (k, Val.nil)) k Val.nil = (storeK K k).map fun k => (k, Val.nil) := by
+  unfold mapStore storeK
+  by_cases h : k ∈ K
+  · have : ((K.map fun k => (k, Val.nil)).any fun x => decide (x.1 = k)) = true := by
+      simp only [List.any_map, List.any_eq_true, Function.comp, decide_eq_true_eq]
+      exact ⟨k, h, rfl⟩
+    rw [if_pos this, if_pos h, List.map_map]
+    apply List.map_congr_left
+    intro x _
+    by_cases e : x = k <;> simp [e]
+  · have : ((K.map fun k => (k, Val.nil)).any fun x => decide (x.1 = k)) = false := by
+      simp only [List.any_map, List.any_eq_false, Function.comp, decide_eq_true_eq]
+      intro x hx e; exact h (e ▸ hx)
+    rw [this, if_neg h]
+    simp
+
+theorem storeFold_keys (vs : List Val) : ∀ (K : List Str),
+    vs.foldl (fun m (x : Val) => mapStore m x.asStr Val.nil) (K.map fun k => (k, Val.nil)) =
+      ((vs.map Val.asStr).foldl storeK K).map fun k => (k, Val.nil) := by
+  induction vs with
+  | nil => intro K; rfl
+  | cons v vs ih => intro K; simp only [List.foldl_cons, List.map_cons, mapStore_keys, ih]
+
+theorem addK_inv (ks : List Str) : ∀ K : List Str, K.Nodup →
+    (ks.foldl addK K).Nodup ∧ ∀ x, x ∈ ks.foldl addK K ↔ x ∈ K ∨ x ∈ ks := by
+  induction ks with
+  | nil => intro K h; simp [h]
+  | cons k ks ih =>
+    intro K h
+    have hn : (addK K k).Nodup := by
+      unfold addK
+      refine List.nodup_cons.mpr ⟨by simp, h.sublist List.filter_sublist⟩
+    obtain ⟨h1, h2⟩ := ih (addK K k) hn
+    refine ⟨h1, ?_⟩
+    intro x
+    rw [List.foldl_cons, h2 x]
+    unfold addK
+    simp only [List.mem_cons, List.mem_filter, decide_eq_true_eq]
+    constructor
+    · rintro ((rfl | ⟨hx, _⟩) | hx)
+      · exact Or.inr (Or.inl rfl)
+      · exact Or.inl hx
+      · exact Or.inr (Or.inr hx)
+    · rintro (hx | rfl | hx)
+      · by_cases e : x = k
+        · exact Or.inl (Or.inl e)
+        · exact Or.inl (Or.inr ⟨hx, e⟩)
+      · exact Or.inl (Or.inl rfl)
+      · exact Or.inr hx
+
+theorem storeK_inv (ks : List Str) : ∀ K : List Str, K.Nodup →
+    (ks.foldl storeK K).Nodup ∧ ∀ x, x ∈ ks.foldl storeK K ↔ x ∈ K ∨ x ∈ ks := by
+  induction ks with
+  | nil => intro K h; simp [h]
+  | cons k ks ih =>
+    intro K h
+    have hn : (storeK K k).Nodup := by
+      unfold storeK
+      by_cases e : k ∈ K
+      · rw [if_pos e]; exact h
+      · rw [if_neg e]
+        exact List.nodup_append.mpr ⟨h, by simp, by intro a ha b hb; simp at hb; subst hb; intro e'; exact e (e' ▸ ha)⟩
+    obtain ⟨h1, h2⟩ := ih (storeK K k) hn
+    refine ⟨h1, ?_⟩
+    intro x
+    rw [List.foldl_cons, h2 x]
+    unfold storeK
+    by_cases e : k ∈ K
+    · rw [if_pos e]
+      simp only [List.mem_cons]
+      constructor
+      · rintro (hx | hx); exact Or.inl hx; exact Or.inr (Or.inr hx)
+      · rintro (hx | rfl | hx); exact Or.inl hx; exact Or.inl e; exact Or.inr hx
+    · rw [if_neg e]
+      simp only [List.mem_append, List.mem_cons, List.mem_singleton, List.not_mem_nil, or_false]
+      constructor
+      · rintro ((hx | rfl) | hx); exact Or.inl hx; exact Or.inr (Or.inl rfl); exact Or.inr (Or.inr hx)
+      · rintro (hx | rfl | hx); exact Or.inl (Or.inl hx); exact Or.inl (Or.inr rfl); exact Or.inr hx
+
+/-- the two signing-key sets (Go's loop of `Add`, the model's fold of `mapStore`) hold the same entries -/
+theorem signingKeys_perm (vs : List Val) :
+    (addKeys [] (vs.map Val.asStr)).Perm
+      ((vs.foldl (fun m (x : Val) => mapStore m x.asStr Val.nil) []).map fun p => (p.1, scopeOfVal p.2)) := by
+  have a := addKeys_keys (vs.map Val.asStr) []
+  have b := storeFold_keys vs []
+  simp only [List.map_nil] at a b
+  rw [a, b, List.map_map]
+  have hf : ((fun p : Str × Val => (p.1, scopeOfVal p.2)) ∘ fun k => (k, Val.nil)) = fun k => (k, (none : Option V2.I_Scope)) := by
+    funext k; rfl
+  rw [hf]
+  apply List.Perm.map
+  obtain ⟨n1, m1⟩ := addK_inv (vs.map Val.asStr) [] List.nodup_nil
+  obtain ⟨n2, m2⟩ := storeK_inv (vs.map Val.asStr) [] List.nodup_nil
+  exact (List.perm_ext_iff_of_nodup n1 n2).mpr (fun x => by rw [m1 x, m2 x])
+
+/-- fields of the migrated `nats` section that the migration does not touch keep the zero value -/
+theorem account_untouched (v1 : Val) (k : String)
+    (h1 : k.toList ≠ "type".toList ∧ k.toList ≠ "tags".toList ∧ k.toList ≠ "version".toList)
+    (h2 : k.toList ≠ "signing_keys".toList) (h3 : k.toList ≠ "limits".toList)
+    (h4 : (["imports", "exports", "revocations"] : List String).any (fun x => x.toList = k.toList) = false) :
+    ((migrateAccount v1).field "nats").field k = ((zero Gen.V2.AccountClaims).field "nats").field k := by
+  simp only [migrateAccount]
+  rw [Val.field_set_eq _ _ _ (by rw [copyFrom_hasKey]; decide), rehome_other _ _ _ h1, Val.field_set_ne _ _ _ _ h2,
+    Val.field_set_ne _ _ _ _ h3, copyFrom_other _ _ _ _ h4]
+
+theorem account_signing_keys (v1 : Val) :
+    ((migrateAccount v1).field "nats").field "signing_keys" =
+      .map (match (v1.field "nats").field "signing_keys" with
+            | .list ks => ks.foldl (fun m k => mapStore m k.asStr .nil) []
+            | _ => []) := by
+  simp only [migrateAccount]
+  rw [Val.field_set_eq _ _ _ (by rw [copyFrom_hasKey]; decide)]
+  exact (account_shape v1 _ _).2.2.1
+
+theorem account_limits_mbr (v1 : Val) :
+    (((migrateAccount v1).field "nats").field "limits").field "max_bytes_required" = .bool false := by
+  simp only [migrateAccount]
+  rw [Val.field_set_eq _ _ _ (by rw [copyFrom_hasKey]; decide), (account_shape v1 _ _).2.1,
+    copyFrom_other _ _ _ _ (by decide)]
+  rfl
+
+open Jwt.Gen.Fn in
+/-- `v1AccountClaims.migrateV1`: never panics; every field of the result is the field the model's migrated value reads
+as, except that the signing-key set is built in a different entry order (a Go map has none): equal up to permutation -/
+theorem gen_migrateAccount (v1 : Val) :
+    ∃ a l l', V2.v1AccountClaims_migrateV1 (V2.T_v1AccountClaims.ofVal v1) = some (a, false) ∧
+      a.f_Account.f_SigningKeys = some l ∧
+      (V2.T_AccountClaims.ofVal (migrateAccount v1)).f_Account.f_SigningKeys = some l' ∧ l.Perm l' ∧
+      ({ a with f_Account := { a.f_Account with f_SigningKeys := none } } : V2.T_AccountClaims) =
+        { V2.T_AccountClaims.ofVal (migrateAccount v1) with
+          f_Account := { (V2.T_AccountClaims.ofVal (migrateAccount v1)).f_Account with f_SigningKeys := none } } := by
+  obtain ⟨tc, tl, tj, tt, t5, t6, t7⟩ := migrate_account_table v1
+  have hcd := claimsData_carried (migrateAccount v1) v1 (std_carried_account v1)
+  have hsk := account_signing_keys v1
+  have hmbr := account_limits_mbr v1
+  have u1 := account_untouched v1 "default_permissions" (by decide) (by decide) (by decide) (by decide)
+  have u2 := account_untouched v1 "mappings" (by decide) (by decide) (by decide) (by decide)
+  have u3 := account_untouched v1 "authorization" (by decide) (by decide) (by decide) (by decide)
+  have u4 := account_untouched v1 "trace" (by decide) (by decide) (by decide) (by decide)
+  have u5 := account_untouched v1 "description" (by decide) (by decide) (by decide) (by decide)
+  have u6 := account_untouched v1 "info_url" (by decide) (by decide) (by decide) (by decide)
+  unfold V2.v1AccountClaims_migrateV1
+  simp only [Option.pure_def, Option.bind_eq_bind, Option.bind_some, forRange]
+  rw [migAcct_loop _ 0 _ [] rfl]
+  simp only [Option.bind_some]
+  have hskf : (V2.T_AccountClaims.ofVal (migrateAccount v1)).f_Account.f_SigningKeys =
+      mapOfValWith scopeOfVal (((migrateAccount v1).field "nats").field "signing_keys") := by
+    simp only [V2.T_AccountClaims.ofVal, V2.T_Account.ofVal]; congr 1
+  refine ⟨_, addKeys [] (V2.T_v1AccountClaims.ofVal v1).f_v1NatsAccount.f_SigningKeys,
+    (match (v1.field "nats").field "signing_keys" with
+      | .list ks => ks.foldl (fun m (k : Val) => mapStore m k.asStr Val.nil) ([] : List (Str × Val))
+      | _ => []).map (fun (p : Str × Val) => (p.1, scopeOfVal p.2)), rfl, rfl, ?_, ?_, ?_⟩
+  · rw [hskf, hsk]; rfl
+  · have hk : (V2.T_v1AccountClaims.ofVal v1).f_v1NatsAccount.f_SigningKeys = ((v1.field "nats").field "signing_keys").strs := rfl
+    rw [hk]
+    cases hv : (v1.field "nats").field "signing_keys" with
+    | list ks => exact signingKeys_perm ks
+    | _ => simp [Val.strs, Val.asList, addKeys]
+  · have c1 := tc "imports" (by decide)
+    have c2 := tc "exports" (by decide)
+    have c3 := tc "revocations" (by decide)
+    have l1 := tl "subs" (by decide)
+    have l2 := tl "data" (by decide)
+    have l3 := tl "payload" (by decide)
+    have l4 := tl "imports" (by decide)
+    have l5 := tl "exports" (by decide)
+    have l6 := tl "wildcards" (by decide)
+    have l7 := tl "disallow_bearer" (by decide)
+    have l8 := tl "conn" (by decide)
+    have l9 := tl "leaf" (by decide)
+    have j1 := tj "mem_storage" (by decide)
+    have j2 := tj "disk_storage" (by decide)
+    have j3 := tj "streams" (by decide)
+    have j4 := tj "consumer" (by decide)
+    have j5 := tj "max_ack_pending" (by decide)
+    have j6 := tj "mem_max_stream_bytes" (by decide)
+    have j7 := tj "disk_max_stream_bytes" (by decide)
+    simp only [V2.T_AccountClaims.ofVal, V2.T_Account.ofVal, V2.T_OperatorLimits.ofVal, V2.T_NatsLimits.ofVal,
+      V2.T_AccountLimits.ofVal, V2.T_JetStreamLimits.ofVal, V2.T_GenericFields.ofVal, V2.T_Info.ofVal, hcd,
+      c1, c2, c3, l1, l2, l3, l4, l5, l6, l7, l8, l9, j1, j2, j3, j4, j5, j6, j7, tt, t5, t6, t7, hmbr, u1, u2, u3, u4, u5, u6]
+    rfl
+
+end AccountMigration
+
 end Jwt.C04
